@@ -99,9 +99,31 @@ async fn run_case(dir: &std::path::Path, case: &Value) -> Vec<Value> {
     match kind {
         "nonregular" => {
             let target = case["target"].as_str().unwrap_or("dir");
+            use std::os::unix::io::FromRawFd;
             let f = match target {
                 "devnull" => std::fs::File::open("/dev/null"),
                 "devzero" => std::fs::File::open("/dev/zero"),
+                // one end of a socket pair, as a File
+                "socket" => std::os::unix::net::UnixStream::pair()
+                    .map(|(a, _b)| std::fs::File::from(std::os::fd::OwnedFd::from(a))),
+                // a handle onto a symbolic link itself (O_PATH | O_NOFOLLOW)
+                "symlink_handle" => {
+                    let l = dir.join("lnk");
+                    let _ = std::fs::remove_file(&l);
+                    let _ = std::os::unix::fs::symlink("/dev/null", &l);
+                    let c = std::ffi::CString::new(l.to_string_lossy().as_bytes()).unwrap();
+                    let fd = unsafe { libc::open(c.as_ptr(), libc::O_PATH | libc::O_NOFOLLOW | libc::O_CLOEXEC) };
+                    if fd < 0 { Err(std::io::Error::last_os_error()) } else { Ok(unsafe { std::fs::File::from_raw_fd(fd) }) }
+                }
+                // a FIFO, opened without blocking
+                "fifo" => {
+                    let l = dir.join("fifo");
+                    let _ = std::fs::remove_file(&l);
+                    let c = std::ffi::CString::new(l.to_string_lossy().as_bytes()).unwrap();
+                    unsafe { libc::mkfifo(c.as_ptr(), 0o600) };
+                    let fd = unsafe { libc::open(c.as_ptr(), libc::O_RDONLY | libc::O_NONBLOCK | libc::O_CLOEXEC) };
+                    if fd < 0 { Err(std::io::Error::last_os_error()) } else { Ok(unsafe { std::fs::File::from_raw_fd(fd) }) }
+                }
                 _ => std::fs::File::open(dir),
             };
             let r = f.map_err(|e| e.to_string()).and_then(|f| {
